@@ -39,7 +39,7 @@ def cases(tier, rng):
     if tier == "quick":
         stride, nblk, nrand, per = 13, 4, 20, 45
     else:
-        stride, nblk, nrand, per = 2, 28, 240, 220
+        stride, nblk, nrand, per = 2, 28, 200, 220
     out.append({"kind": "regression"})
     idx = list(range(int(rng.integers(stride)), n_fam, stride))
     blk = (len(idx) + nblk - 1) // nblk
